@@ -129,7 +129,7 @@ theorem roundtrip (cd : Codec) (m : Model) (o : Opts) (hwf : wellFormed m o = tr
     | true =>
       have := hbin hb
       simp [readBackHdr, effHdr, hb, this]
-  obtain ⟨g, hg, hrun⟩ := hr 1 [] [Ev.endInput] (by simp [readSegs])
+  obtain ⟨g, hg, hrun⟩ := hr.1 1 [] [Ev.endInput] (by simp [readSegs])
   have hmono := readSegs_mono' cd (readBackHdr cd (effHdr m) o) ((writeNL m o).length + 1 - g) g true _ _ hrun
   have hlen : g + ((writeNL m o).length + 1 - g) = (writeNL m o).length + 1 := by
     have : (wBody m o).length ≤ (writeNL m o).length := by rw [writeNL_eq]; simp
